@@ -176,7 +176,26 @@ def orbit_bound(sg, tier):
     return 3 if L <= 8 else 2
 
 
+def uneven_occupations(sg, limit):
+    """one species on three orbits spread unevenly (2 + 1) over two letters that some tabulated normalizer exchanges (both
+    with free parameters, so that two orbits on one letter are different orbits), smallest multiplicities first"""
+    letters = S.letters_of(sg)
+    pairs = set()
+    for key, perm in S.candidate_transforms(sg):
+        if perm is None:
+            continue
+        for l in letters:
+            if perm[l] != l and S.nvars(sg, l) > 0:
+                pairs.add((l, perm[l]))
+    pairs = sorted(pairs, key=lambda p: (len(S.orbit(sg, p[0])), p))
+    return [[(a, S.ELEMENTS[0]), (a, S.ELEMENTS[0]), (b, S.ELEMENTS[0])] for a, b in pairs[:limit]]
+
+
 def occupations_for(sg, tier):
+    return _occupations_for(sg, tier) + uneven_occupations(sg, 2 if tier == "quick" else 6)
+
+
+def _occupations_for(sg, tier):
     occs = S.occupations(sg, orbit_bound(sg, tier), S.ELEMENTS)
     if tier == "quick" and orbit_bound(sg, tier) < 2:
         # two-orbit occupations restricted to parameter-free letters (small orbits; the identical-cell clause applies)
@@ -222,6 +241,7 @@ def main(tier, seed, only=None):
         rep.require_reached("H06:pair", "H06:no-free-parameters")
     rep.bounds = {"space_groups": len(groups), "pairs (occupation x normalizer)": npairs,
                   "orbits": "quick: <= 2 orbits where letters x normalizers <= 40, else 1 orbit plus every 2-orbit occupation of parameter-free letters; thorough: <= 3 orbits for groups with <= 8 letters, 2 otherwise",
+                  "uneven occupations": "per group up to 2 (6) occupations with one species on two orbits of a letter and one orbit of the letter a normalizer exchanges it with",
                   "second description": "image under each tabulated normalizer, atoms in reversed order; letters of the image from the independent oracle"}
     rep.stubs = ["SpglibContract datasets for the crystal and for its normalizer image", "StubAtoms / StubSystem", "SHA-512/base64 run for real on the concrete id string"]
     rep.assumptions = ["spglib's standardisation maps any two descriptions of a crystal onto datasets that differ by an element of the Euclidean normalizer (contract)",
